@@ -565,3 +565,28 @@ def find_call(index_methods, fn, name, depth=1):
             if len(inner) == 1:
                 found.append((h, inner[0], HelperView(inl, c, h)))
     return found[0] if len(found) == 1 else None
+
+
+def bind_args(call, fn, method=True):
+    """parameter name -> argument expression for one call of `fn` (positional and keyword arguments; `self` skipped for method calls;
+    parameters left to their defaults are absent)"""
+    params = [a.arg for a in fn.args.args]
+    if method and params and params[0] in ("self", "cls"):
+        params = params[1:]
+    out = {}
+    for p, a in zip(params, call.args):
+        if not isinstance(a, ast.Starred):
+            out[p] = a
+    for k in call.keywords:
+        if k.arg:
+            out[k.arg] = k.value
+    return out
+
+
+def param_role(fn, pattern):
+    """the parameter of fn that occurs as group 1 of the regular expression `pattern` somewhere in the body (e.g. r'(\\w+)\\.feed_used'):
+    unique match or None"""
+    import re
+    params = {a.arg for a in fn.args.args}
+    hits = {m.group(1) for m in re.finditer(pattern, norm_src(fn)) if m.group(1) in params}
+    return hits.pop() if len(hits) == 1 else None
